@@ -35,9 +35,11 @@ PLANS["C14"] = {
     "complete_cross_checks": {"word_get_previous": ["u1::word_tracker"], "word_get_next": ["u1::word_tracker"], "usize::ignore": ["u1::word_tracker"],
                               "usize::max_len": ["u1::word_tracker"]},
     "cex_native": {
-        "eval_numbers": [("u1::eval_numbers_boundary_65", ["00", "01"]), ("u1::eval_numbers_boundary_66", ["00", "01"]), ("u1::eval_numbers_boundary_64", ["00", "01"])],
-        "deep_eval_relaxed_tracker_site": [("u1::deep_eval_boundary", ["40", "41", "42", "7f", "80", "81"])],
-        "flatex_to_deepex_tracker_loop": [("u1::flat2deep_boundary", ["4000", "4100", "413f", "4140", "4200", "7f7e", "8000", "807f", "8100", "c100", "c1c0"])],
+        "eval_numbers": [("u1::eval_numbers_boundary_65", ["00", "01"]), ("u1::eval_numbers_boundary_66", ["00", "01"]), ("u1::eval_numbers_boundary_64", ["00", "01"]), ("u1::chain_sizes", ["410000", "810000", "820000", "ff0700", "000800", "010800", "410800", "420800", "430800", "c40900"])],
+        "deep_eval_relaxed_tracker_site": [("u1::deep_eval_boundary", ["40", "41", "42", "7f", "80", "81"]), ("u1::chain_sizes", ["410001", "810001", "820001", "ff0701", "000801", "010801", "410801", "420801", "430801", "c40901"])],
+        "slice_get_previous": [("u1::chain_sizes", ["410000", "810000", "820000", "ff0700", "000800", "010800", "410800", "420800", "430800", "c40900"] + ["410001", "810001", "820001", "ff0701", "000801", "010801", "410801", "420801", "430801", "c40901"])], "slice_get_next": [("u1::chain_sizes", ["410000", "810000", "820000", "ff0700", "000800", "010800", "410800", "420800", "430800", "c40900"])], "slice_ignore": [("u1::chain_sizes", ["410000", "810000", "820000", "ff0700", "000800", "010800", "410800", "420800", "430800", "c40900"])],
+        "eval_binary": [("u1::chain_sizes", ["410000", "810000", "820000", "ff0700", "000800", "010800", "410800", "420800", "430800", "c40900"])],
+        "flatex_to_deepex_tracker_loop": [("u1::flat2deep_boundary", ["4000", "4100", "413f", "4140", "4200", "7f7e", "8000", "807f", "8100", "c100", "c1c0"]), ("u1::chain_sizes", ["410002", "810002", "820002", "ff0702", "000802", "010802", "410802", "420802", "430802", "c40902"])],
     },
     "trusted_base": [
         A_VERUS,
@@ -62,7 +64,7 @@ PLANS["C14"] = {
 
 # ---------------------------------------------------------------------------------------------
 U7_FUNCTIONAL = """b_add b_sub b_mul b_div b_min b_max b_rem b_bitwise_or b_bitwise_and b_bitwise_xor b_left_shift b_right_shift
- b_pow b_atan2 b_and_or cmp_eq_ord if_else unary_plus_log_consts conv_to_bool
+ b_pow b_pow_i64 b_atan2 b_and_or cmp_eq_ord if_else unary_plus_log_consts conv_to_bool
  u_sin u_cos u_tan u_asin u_acos u_atan u_sinh u_cosh u_tanh u_asinh u_acosh u_atanh u_floor u_ceil u_trunc
  u_fract u_exp u_sqrt u_cbrt u_ln u_log2 u_log10 u_round u_swap_bytes u_to_le u_to_be
  u_abs u_signum u_minus u_fact u_cast_to_int u_cast_to_float conv_to_int_float vec_scalar_ops""".split()
@@ -89,10 +91,15 @@ C17_QUICK_I64_F32 = {"tg_caret_bin", "tg_to_int_un", "tg_to_float_un", "tg_fact_
                      "tg_percent_bin", "tg_slash_bin", "tg_atan2_bin", "tg_minus_un", "tg_abs_un"}
 
 
+# array-tier harnesses of the entries that index into / iterate over arrays: quick tier as well
+C17_QUICK_ARRAY = {"ta_cross_bin", "ta_dot_bin", "ta_period_bin", "ta_length_un", "ta_minus_un"}
+
+
 def c17_kani(tier, gen):
     vh = gen["value_harnesses"]
     hs = ["vgen::" + h for h in vh["total_scalar"]]
     hs += ["vgen::" + h for h in vh["total_i64_f32"] if tier == "thorough" or h in C17_QUICK_I64_F32]
+    hs += ["vgen::" + h for h in vh["total_array"] if tier != "thorough" and h in C17_QUICK_ARRAY]
     if tier == "thorough":
         hs += ["vgen::" + h for h in vh["total_array"]]
     return hs
@@ -129,7 +136,8 @@ PLANS["C17"] = {
     "not_covered": ["panics reachable only through parse-time folding of literals are the same operator calls; the parser path itself is not executed",
                     "arrays longer than 3 entries (thorough tier covers 0..=3)"],
     "bounds": {"quick": ["scalar operands, complete: all 25 ordered kind pairs x all 2^32 / 2^64 payload values per entry (Val<i32, f64>)",
-                         "second instantiation Val<i64, f32> for the 12 entries that convert between number types"],
+                         "second instantiation Val<i64, f32> for the 12 entries that convert between number types",
+                         "arrays of length 0..=3 for cross, dot, `.`, length and unary minus"],
                "thorough": ["as quick, plus every kind pair involving arrays of length 0..=3, plus Val<i64, f32> for every entry"]},
     "explanation": "C17 is the contract `returns` (no panic, no overflow, no failed unwrap, no out-of-bounds) on every entry of the value table; one generated harness per entry.",
 }
@@ -202,12 +210,14 @@ PLANS["C07"] = {
 }
 PLANS["C15"] = {
     "level": "model_checking",
-    "kani": {"quick": ["c15::consuming_vs_cloning_2"], "thorough": ["c15::consuming_vs_cloning_2", "c15::consuming_vs_cloning_3"]},
+    "kani": {"quick": ["c15::consuming_vs_cloning_2", "c15::shape_xyx"],
+             "thorough": ["c15::consuming_vs_cloning_2", "c15::shape_xyx", "c15::consuming_vs_cloning_3", "c15::shape_yxyx", "c15::shape_xlyx", "c15::shape_xxx"]},
     "kani_timeout": {"quick": 900, "thorough": 3000},
     "owns_unprefixed": True,
     "trusted_base": [A_CBMC, A_FMT, A_NOOVF], "assumptions": [A_CBMC, A_FMT, A_NOOVF],
     "not_covered": ["entry points eval_vec / eval_iter (arity guards, collection of the iterator)", "expressions with more than 3 nodes or more than 2 variables", "unary chains longer than 1"],
-    "bounds": {"quick": ["2 nodes, each a symbolic choice of {literal, var 0, var 1} with optional unary function, symbolic values"], "thorough": ["as quick, plus 3 nodes with a symbolic application order"]},
+    "bounds": {"quick": ["2 nodes, each a symbolic choice of {literal, var 0, var 1} with optional unary function, symbolic values", "the concrete 3-node shape x y x (order: right operator first), symbolic values and unary flags"],
+               "thorough": ["as quick, plus 3 nodes with symbolic shape and application order, plus the concrete shapes x x x, y x y x and x L y x"]},
     "explanation": "Bounded: eval_flatex_consuming_vars agrees with eval_flatex_cloning and with an independent reference reduction; no moved-out value reaches an operator; single-occurrence variables are not cloned.",
 }
 PLANS["C04"] = {
